@@ -336,8 +336,8 @@ def hassanat_distance(x: np.array, y: np.array) -> float:
 
         else:
             dist[i] = 1 - (
-                1 + np.minimum(x[i], y[i]) + np.fabs(np.minimum(x[i], y[i]))
-            ) / (1 + np.maximum(x[i], y[i]) + np.fabs(np.minimum(x[i], y[i])))
+                1 + (np.minimum(x[i], y[i]) + np.fabs(np.minimum(x[i], y[i])))
+            ) / (1 + (np.maximum(x[i], y[i]) + np.fabs(np.minimum(x[i], y[i]))))
 
     return np.sum(dist)
 
